@@ -55,14 +55,62 @@ def exec_sim(repo, argv, side, hashseed, rng, cwd, npulses=10, disk=None):
     return json.loads(p.stdout)
 
 
-def exec_real(repo, argv, hashseed, rng, scratch):
+class _Done:
+    def __init__(self, returncode, stdout, stderr):
+        self.returncode, self.stdout, self.stderr = returncode, stdout, stderr
+
+
+def _run_on_tty(cmd, env, cwd):
+    """Run with stdout connected to a pseudo-terminal (isatty() is true for
+    the program); output post-processing of the tty is switched off so the
+    bytes arrive unchanged."""
+    import pty
+    import select
+    import termios
+    master, slave = pty.openpty()
+    attr = termios.tcgetattr(slave)
+    attr[1] = attr[1] & ~termios.OPOST
+    termios.tcsetattr(slave, termios.TCSANOW, attr)
+    p = subprocess.Popen(cmd, stdout=slave, stderr=subprocess.PIPE, stdin=subprocess.DEVNULL,
+                         env=env, cwd=cwd)
+    os.close(slave)
+    chunks = []
+    while True:
+        r, _, _ = select.select([master], [], [], 0.2)
+        if r:
+            try:
+                b = os.read(master, 65536)
+            except OSError:
+                break
+            if not b:
+                break
+            chunks.append(b)
+        elif p.poll() is not None:
+            break
+    err = p.stderr.read().decode(errors='replace')
+    p.wait()
+    os.close(master)
+    S.fired('stdout_is_tty')
+    return _Done(p.returncode, b''.join(chunks).decode(errors='replace'), err)
+
+
+def exec_real(repo, argv, hashseed, rng, scratch, tty=False):
     """Unpatched run with real clock and real files in a scratch directory."""
     d = tempfile.mkdtemp(prefix='real', dir=scratch)
     try:
         env = child_env(rng, hashseed)
         env['PYTHONPATH'] = repo
-        p = subprocess.run([PY, '-m', 'mininec.mininec'] + list(argv), capture_output=True,
-                           text=True, env=env, cwd=d, timeout=300)
+        p = None
+        if tty:
+            env['TERM'] = 'xterm-256color'
+            try:
+                p = _run_on_tty([PY, '-m', 'mininec.mininec'] + list(argv), env, d)
+            except OSError:
+                S.fired('tty_unavailable')      # no pseudo-terminals in this sandbox
+                p = None
+        if p is None:
+            p = subprocess.run([PY, '-m', 'mininec.mininec'] + list(argv), capture_output=True,
+                               text=True, env=env, cwd=d, timeout=300)
         files = {}
         for flag, path in W.out_paths(argv):
             fp = os.path.join(d, path)
